@@ -330,6 +330,12 @@ func (ch c08) runCase(c *core.Ctx, env *hs.Env, k c08case, idx int) {
 	}
 	st.Ops = append(st.Ops, hs.Op{K: "complete", Tag: "SELECT 1"})
 	sess := &hs.Sess{Progs: map[string]*hs.Prog{"q": {Stmts: []*hs.Stmt{st}}}}
+	// the text of the statement may contain markers: what Describe announces are the declared types
+	c08q := "q"
+	if len(k.PRaw)%2 == 1 || len(k.PRaw) == 0 {
+		c08q = "q where a = ? and b = $2 or c ? 'key' /* $7 */"
+		sess.Progs[c08q] = sess.Progs["q"]
+	}
 	sess.OnExec = func(ctx context.Context, _ *hs.Stmt, _ wire.DataWriter, params []wire.Parameter) {
 		var sc c08scan
 		for i, p := range params {
@@ -378,7 +384,7 @@ func (ch c08) runCase(c *core.Ctx, env *hs.Env, k c08case, idx int) {
 		}
 		c.Count("parse_with_prespecified_types", 1)
 	}
-	in = append(in, pg.Parse("st", "q", pre)...)
+	in = append(in, pg.Parse("st", c08q, pre)...)
 	in = append(in, pg.Describe('S', "st")...)
 	in = append(in, pg.Bind("po", "st", k.PFmts, k.PRaw, k.RFmts)...)
 	in = append(in, pg.Describe('P', "po")...)
